@@ -67,6 +67,9 @@ func (e *Engine) shortName(fn *ssa.Function) string {
 		// synthetic wrappers etc.
 		return fn.String()
 	}
+	if !e.analysed(fn) {
+		return fn.Pkg.Pkg.Path() + "." + fn.RelString(fn.Pkg.Pkg)
+	}
 	return fn.Pkg.Pkg.Name() + "." + fn.RelString(fn.Pkg.Pkg)
 }
 
